@@ -128,6 +128,10 @@ pub enum Case {
     },
     /// Operations on buffers from a ReadBufPool.
     PoolIo { dgram: bool, peek: bool, len: u16, pool_log2: u8, file_off: Option<u16> },
+    /// The synchronous helpers (sync_socket, sync_bind, sync_listen,
+    /// sync_local_addr, sync_pipe2) against socket(2)/bind(2)/listen(2)/
+    /// getsockname(2)/pipe2(2).
+    SyncSock { family: AddrFamily, ty: u8, name_len: u8, backlog: u16, pipe_direct: bool },
     /// The request handed to the (simulated) kernel, audited against the
     /// documented encoding (props/c13b.rs).
     Audit(super::c13b::Audit),
@@ -293,6 +297,7 @@ impl Property for C13 {
             2 => (0u8..5, 0u16..0o1000, 0u16..9000, proptest::option::weighted(0.6, (file_secs(), 0u32..1_000_000_000, file_secs(), prop_oneof![Just(0u32), Just(999_999_999u32), 0u32..1_000_000_000]))).prop_map(|(target, mode, size, times)| Case::Meta { target, mode, size, times }),
             3 => (any::<bool>(), any::<bool>(), 1u16..4000, 0u8..3, proptest::option::weighted(0.5, 0u16..6000)).prop_map(|(dgram, peek, len, pool_log2, file_off)| Case::PoolIo { dgram, peek, len, pool_log2, file_off }),
             16 => super::c13b::strategy().prop_map(Case::Audit),
+            2 => (family(), 0u8..3, 1u8..100, any::<u16>(), any::<bool>()).prop_map(|(family, ty, name_len, backlog, pipe_direct)| Case::SyncSock { family, ty, name_len, backlog, pipe_direct }),
         ]
         .boxed()
     }
@@ -350,6 +355,7 @@ impl Property for C13 {
             Case::Meta { target, mode, size, times } => run_meta(&mut real, *target, *mode, *size, *times, &mut classes),
             Case::PoolIo { dgram, peek, len, pool_log2, file_off } => run_pool_io(&mut real, *dgram, *peek, *len, *pool_log2, *file_off, &mut classes),
             Case::Audit(_) => unreachable!(),
+            Case::SyncSock { family, ty, name_len, backlog, pipe_direct } => run_sync_sock(*family, *ty, *name_len, *backlog, *pipe_direct, &mut classes),
         };
         for (sig, msg) in std::mem::take(&mut real.soft) {
             ctx.violation(&format!("C13:{sig}"), msg);
@@ -390,6 +396,7 @@ impl Property for C13 {
             Case::Meta { .. } => "metadata",
             Case::PoolIo { .. } => "pool-io",
             Case::Audit(_) => "audit",
+            Case::SyncSock { .. } => "sync-helpers",
         };
         ctx.class(fam);
         classes.sort();
@@ -1755,6 +1762,132 @@ fn run_socket(real: &mut Real, domain: u8, ty: u8, direct: bool, classes: &mut V
     if domain % 3 == 2 {
         classes.push("unix-address");
     }
+    Ok(())
+}
+
+/// The synchronous helpers a10 offers next to its operations: same effect as
+/// the system call of the same name.
+fn run_sync_sock(family: AddrFamily, ty: u8, name_len: u8, backlog: u16, pipe_direct: bool, classes: &mut Vec<&'static str>) -> Result<(), String> {
+    let scratch = Scratch::new("sync");
+    let unix = matches!(family, AddrFamily::UnixPath | AddrFamily::UnixAbstract);
+    let (t, rt) = [(Type::STREAM, libc::SOCK_STREAM), (Type::DGRAM, libc::SOCK_DGRAM), (Type::SEQPACKET, libc::SOCK_SEQPACKET)][ty as usize % 3];
+    let a = a10::net::sync_socket(domain_of(family), t, None);
+    let fb = unsafe { libc::socket(dom_raw(family), rt | libc::SOCK_CLOEXEC, 0) };
+    same_outcome(&format!("sync_socket({},{rt})", dom_raw(family)), &a.as_ref().map(|_| ()).map_err(|e| io::Error::from_raw_os_error(e.raw_os_error().unwrap_or(0))), &if fb < 0 { Err(last_err()) } else { Ok(()) })?;
+    let (Ok(sa), true) = (a, fb >= 0) else {
+        if fb >= 0 {
+            unsafe { libc::close(fb) };
+        }
+        return Ok(());
+    };
+    let sb = unsafe { OwnedFd::from_raw_fd(fb) };
+    let (fa, fb) = (sa.as_raw_fd(), sb.as_raw_fd());
+    for (name, opt) in [("SO_DOMAIN", libc::SO_DOMAIN), ("SO_TYPE", libc::SO_TYPE), ("SO_PROTOCOL", libc::SO_PROTOCOL)] {
+        let (x, y) = (getsockopt_int(fa, libc::SOL_SOCKET, opt), getsockopt_int(fb, libc::SOL_SOCKET, opt));
+        if x != y {
+            return Err(format!("sync_socket:{name}: {x} through a10, {y} through socket(2)"));
+        }
+    }
+    let (ca, cb) = (unsafe { libc::fcntl(fa, libc::F_GETFD) }, unsafe { libc::fcntl(fb, libc::F_GETFD) });
+    let (la, lb) = (unsafe { libc::fcntl(fa, libc::F_GETFL) }, unsafe { libc::fcntl(fb, libc::F_GETFL) });
+    if ca != cb || la != lb {
+        return Err(format!("sync_socket-flags: F_GETFD {ca} vs {cb}, F_GETFL {la:#o} vs {lb:#o}"));
+    }
+    // Before bind: the unbound address through both.
+    let unbound_want = std_local_addr(fa, unix);
+    let unbound_got = if unix { a10::net::sync_local_addr::<std::os::unix::net::SocketAddr>(&sa).map(|a| unix_desc(&a)) } else { a10::net::sync_local_addr::<std::net::SocketAddr>(&sa).map(|a| a.to_string()) }.map_err(|e| format!("failure-vs-success:sync_local_addr(unbound): {e}"))?;
+    if unbound_got != unbound_want {
+        return Err(format!("address:sync_local_addr(unbound): a10 reports {unbound_got}, getsockname(2) reports {unbound_want}"));
+    }
+    // Bind one through a10 and its twin through libc, compare what the
+    // kernel then reports through the other API.
+    let addr_a = make_addr(family, &scratch, "ya", name_len);
+    let addr_b = make_addr(family, &scratch, "yb", name_len);
+    let ra: io::Result<()> = match &addr_a {
+        AnyAddr::Ip(a) => a10::net::sync_bind(&sa, *a),
+        AnyAddr::Unix(a, _) => a10::net::sync_bind(&sa, a.clone()),
+    };
+    let rb = match &addr_b {
+        AnyAddr::Ip(a) => {
+            let (st, len) = ip_raw(a);
+            unsafe { libc::bind(fb, (&raw const st).cast(), len) }
+        }
+        AnyAddr::Unix(a, _) => {
+            let (st, len) = unix_raw(a);
+            unsafe { libc::bind(fb, (&raw const st).cast(), len) }
+        }
+    };
+    same_outcome("sync_bind", &ra, &if rb != 0 { Err(last_err()) } else { Ok(()) })?;
+    if ra.is_ok() {
+        let want = std_local_addr(fa, unix);
+        if let AnyAddr::Unix(a, _) = &addr_a {
+            if want != unix_desc(a) {
+                return Err(format!("address:sync_bind: asked a10 to bind {}, getsockname(2) reports {want}", unix_desc(a)));
+            }
+        } else if let AnyAddr::Ip(a) = &addr_a {
+            let got: std::net::SocketAddr = want.parse().map_err(|_| format!("infra:bad local addr {want}"))?;
+            if got.ip() != a.ip() || got.port() == 0 {
+                return Err(format!("address:sync_bind: asked a10 to bind {a}, getsockname(2) reports {want}"));
+            }
+        }
+        let got = if unix { a10::net::sync_local_addr::<std::os::unix::net::SocketAddr>(&sa).map(|a| unix_desc(&a)) } else { a10::net::sync_local_addr::<std::net::SocketAddr>(&sa).map(|a| a.to_string()) }.map_err(|e| format!("failure-vs-success:sync_local_addr: {e}"))?;
+        if got != want {
+            return Err(format!("address:sync_local_addr: a10 reports {got}, getsockname(2) reports {want}"));
+        }
+        // The concrete address types as well.
+        match (&addr_a, family) {
+            (AnyAddr::Ip(_), AddrFamily::V4) => {
+                let got = a10::net::sync_local_addr::<std::net::SocketAddrV4>(&sa).map(|a| a.to_string()).map_err(|e| format!("failure-vs-success:sync_local_addr::<V4>: {e}"))?;
+                if got != want {
+                    return Err(format!("address:sync_local_addr::<SocketAddrV4>: a10 reports {got}, getsockname(2) reports {want}"));
+                }
+            }
+            (AnyAddr::Ip(_), _) => {
+                let got = a10::net::sync_local_addr::<std::net::SocketAddrV6>(&sa).map(|a| a.to_string()).map_err(|e| format!("failure-vs-success:sync_local_addr::<V6>: {e}"))?;
+                if got != want {
+                    return Err(format!("address:sync_local_addr::<SocketAddrV6>: a10 reports {got}, getsockname(2) reports {want}"));
+                }
+            }
+            _ => {}
+        }
+    }
+    // listen: same outcome (datagram sockets refuse), same state.
+    let la = a10::net::sync_listen(&sa, backlog as u32);
+    let lb = unsafe { libc::listen(fb, backlog as i32) };
+    same_outcome("sync_listen", &la, &if lb != 0 { Err(last_err()) } else { Ok(()) })?;
+    let (x, y) = (getsockopt_int(fa, libc::SOL_SOCKET, libc::SO_ACCEPTCONN), getsockopt_int(fb, libc::SOL_SOCKET, libc::SO_ACCEPTCONN));
+    if x != y {
+        return Err(format!("sync_listen:SO_ACCEPTCONN: {x} through a10, {y} through listen(2)"));
+    }
+    // Pipes.
+    let pa = if pipe_direct { a10::pipe::sync_pipe2(a10::pipe::PipeFlag::DIRECT) } else { a10::pipe::sync_pipe() };
+    let mut fds = [0i32; 2];
+    let pb = unsafe { libc::pipe2(fds.as_mut_ptr(), libc::O_CLOEXEC | if pipe_direct { libc::O_DIRECT } else { 0 }) };
+    same_outcome("sync_pipe2", &pa.as_ref().map(|_| ()).map_err(|e| io::Error::from_raw_os_error(e.raw_os_error().unwrap_or(0))), &if pb != 0 { Err(last_err()) } else { Ok(()) })?;
+    if let (Ok([r, w]), 0) = (pa, pb) {
+        let (rb, wb) = unsafe { (OwnedFd::from_raw_fd(fds[0]), OwnedFd::from_raw_fd(fds[1])) };
+        for (what, x, y) in [("read end", r.as_raw_fd(), rb.as_raw_fd()), ("write end", w.as_raw_fd(), wb.as_raw_fd())] {
+            let (ca, cb) = (unsafe { libc::fcntl(x, libc::F_GETFD) }, unsafe { libc::fcntl(y, libc::F_GETFD) });
+            let (la, lb) = (unsafe { libc::fcntl(x, libc::F_GETFL) }, unsafe { libc::fcntl(y, libc::F_GETFL) });
+            if ca != cb || la != lb {
+                return Err(format!("sync_pipe-flags: {what}: F_GETFD {ca} vs {cb}, F_GETFL {la:#o} vs {lb:#o}"));
+            }
+        }
+        let data = pattern(5, 40);
+        let n = unsafe { libc::write(w.as_raw_fd(), data.as_ptr().cast(), data.len()) };
+        let mut back = vec![0u8; 64];
+        let m = unsafe { libc::read(r.as_raw_fd(), back.as_mut_ptr().cast(), back.len()) };
+        if n != data.len() as isize || m != n || back[..m as usize] != data[..] {
+            return Err(format!("payload:sync_pipe: wrote {n} bytes into the write end, read {m} from the read end"));
+        }
+        if pipe_direct {
+            classes.push("pipe-flags");
+        }
+    }
+    if unix {
+        classes.push("unix-address");
+    }
+    classes.push("sync-helpers");
     Ok(())
 }
 
